@@ -556,6 +556,36 @@ func checkNK(c nkCase) (v *mc.Viol, class string) {
 	if len(wire) < 83 || !bytes.Equal(wire[51:83], want[:]) {
 		return bad("type3 marshalled request does not carry SHA-256 of the name key at bytes 51..82", fmt.Sprintf("%d bytes", len(wire)))
 	}
+	// the SAME client object talks to a second issuer next (its own name key, the same one-byte key
+	// id as every issuer-drawn name key has) and then to the first one again
+	w2 := px.NewW3((c.RSA + 1) % len(px.RSAKeys()))
+	nk2, err := w2.ClientNameKey()
+	if err != nil {
+		return bad("client cannot decode the issuer's name key", err.Error())
+	}
+	want2 := sha256.Sum256(handNameKey(nk2))
+	for round, tc := range []struct {
+		k    type3.EncapKey
+		w    *px.W3
+		want [32]byte
+	}{{nk2, w2, want2}, {nk, w, want}} {
+		var f2 []byte
+		if p := mc.CatchStack(func() {
+			st, err = cl.CreateTokenRequest(mc.Fill(seedBase, "chal-"+c.label(), 32), mc.Fill(seedBase, fmt.Sprintf("nonce%d-%s", round, c.label()), 32),
+				p384Scalar("bl-"+c.label()), tc.w.KeyID, tc.w.ClientPub(), name, tc.k)
+			if err == nil {
+				f2 = st.Request().NameKeyID
+			}
+		}); p != "" {
+			return bad("type3 client request creation panics", p)
+		}
+		if err != nil {
+			return bad("type3 client request creation fails", err.Error())
+		}
+		if !bytes.Equal(f2, tc.want[:]) {
+			return bad("type3 request NameKeyID is not SHA-256 of the serialized name key when one client object uses several name keys in turn", fmt.Sprintf("request %d of the client: got %x want %x", round+2, f2, tc.want))
+		}
+	}
 	return nil, fmt.Sprintf("type3 name key id ok (source %d kem %04x)", c.Source, uint16(nk0(nk)))
 }
 
